@@ -1,1 +1,40 @@
-fn main(){}
+mod backend;
+mod checks;
+mod e1;
+mod names;
+mod ops;
+mod refmodel;
+mod report;
+mod runner;
+mod seeds;
+mod spec;
+
+fn main() {
+    ops::install_panic_hook();
+    let args: Vec<String> = std::env::args().collect();
+    if args.len() < 2 {
+        eprintln!("usage: cfbmc check <ID> [--tier quick|thorough] | cfbmc replay <file>");
+        std::process::exit(2);
+    }
+    let code = match args[1].as_str() {
+        "check" => {
+            let id = args.get(2).cloned().unwrap_or_default();
+            let mut tier = std::env::var("VERIF_TIER").unwrap_or_else(|_| "quick".into());
+            let mut i = 3;
+            while i < args.len() {
+                if args[i] == "--tier" && i + 1 < args.len() {
+                    tier = args[i + 1].clone();
+                    i += 1;
+                }
+                i += 1;
+            }
+            checks::run_check(&id, &tier)
+        }
+        "replay" => checks::replay(args.get(2).map(|s| s.as_str()).unwrap_or("")),
+        other => {
+            eprintln!("unknown command {}", other);
+            2
+        }
+    };
+    std::process::exit(code);
+}
